@@ -592,3 +592,172 @@ def union_reset(facts):
     else:
         out.append(ob("hll.union-reset", key, site, "violated", "reset() does not rebuild the gadget with the constructor's parameters (%s)%s: a gadget that was down-sampled keeps its reduced lg_k, so later raw updates yield a result below lg_max_k" % (", ".join(want), "" if got is None else "; it uses (%s)" % ", ".join(got)), reset["qname"]))
     return out
+
+
+def estimator_operands(facts):
+    """hipAndKxQIncrementalUpdate(old, new) is called with the very value the enclosing `new > old` decision was made on"""
+    fns = hll_fns(facts)
+    out = []
+    for pat, fn in sorted(fns.items()):
+        idx = [0]
+
+        def visit(n, parents):
+            if n.get("k") == "Call" and n.get("cname") == "hipAndKxQIncrementalUpdate" and len(n.get("args", [])) == 2:
+                key = "%s:estimator-update#%d" % (short(fn["patq"]), idx[0])
+                idx[0] += 1
+                old, new = txt(n["args"][0]), txt(n["args"][1])
+                guard = None
+                chain = list(parents) + [n]
+                for i in range(len(chain) - 2, -1, -1):
+                    p = chain[i]
+                    if p.get("k") == "If" and p.get("t") is chain[i + 1]:
+                        c = strip(p["c"])
+                        if c.get("k") == "Bin" and c.get("op") == ">" and txt(c["l"]) == new:
+                            guard = c
+                            break
+                if guard is None:
+                    out.append(ob("hll.estimator-operand", key, n["loc"], "violated", "the incremental estimator update is not guarded by `%s > <old value>`" % new, fn["qname"]))
+                elif txt(guard["r"]) == old:
+                    out.append(ob("hll.estimator-operand", key, n["loc"], "discharged", "estimator updated with (%s, %s), the operands of the guarding comparison" % (old, new), fn["qname"]))
+                else:
+                    out.append(ob("hll.estimator-operand", key, n["loc"], "violated", "the register is updated because `%s > %s`, but the estimator is updated as if the old value were `%s`: KxQ / HIP registers drift away from the register array (for HLL_4 the two differ exactly for aux exceptions)" % (new, txt(guard["r"]), old), fn["qname"]))
+        walkp(fn["body"], visit)
+    return out
+
+
+def probe_extent(facts, drivers=("hll", "theta", "tuple")):
+    """a (pointer, lg_size) pair handed to a probing helper is consistent: the array was sized `1 << lg_size`
+    (evaluated symbolically along the straight-line prefix of the caller, honouring ++/-- side effects)"""
+    from poly import Poly
+    fns = functions_by(facts, list(drivers))
+    # helpers: static functions with (T* arr, uintN lg, ...) that compute a mask (1 << lg) - 1
+    helpers = {}
+    for pat, fn in fns.items():
+        ps = fn["params"]
+        if len(ps) >= 2 and ps[0]["t"].endswith("*") and ps[1]["t"] in ("unsigned char", "unsigned int", "int"):
+            has_mask = [False]
+
+            def v(n):
+                if n.get("k") == "Bin" and n.get("op") == "<<" and strip(n["r"]).get("k") == "Ref" and strip(n["r"]).get("d") == ps[1]["d"] and strip(n["l"]).get("v") == 1:
+                    has_mask[0] = True
+            walk(fn["body"], v)
+            if has_mask[0]:
+                helpers[pat] = fn
+    out = []
+    for pat, fn in sorted(fns.items()):
+        env = {}      # decl id / ("field", name) -> Poly (as a log2 size) or ("pow2", Poly)
+        sizes = {}    # decl id of a local array -> Poly lg of its length
+        idx = [0]
+
+        def sym(e):
+            e = strip(e)
+            if e.get("k") == "Member" and e.get("isfield") and strip(e["b"]).get("k") == "This":
+                return ("field", e["f"])
+            if e.get("k") == "Ref":
+                return e["d"]
+            return None
+
+        def ev(e):
+            """returns Poly value (plain integer expression) or ("pow2", Poly) or None; applies ++/-- side effects"""
+            e = strip_all(e)
+            if not isinstance(e, dict):
+                return None
+            if "v" in e and e.get("k") not in ("Call", "Assign", "Un"):
+                return Poly.const(e["v"])
+            k = e.get("k")
+            if k in ("Ref", "Member"):
+                s = sym(e)
+                if s is None:
+                    return None
+                if s not in env:
+                    env[s] = Poly.sym(str(s))
+                return env[s]
+            if k == "Un" and e.get("op") in ("++", "--"):
+                s = sym(e["e"])
+                cur = ev(e["e"])
+                if s is None or not isinstance(cur, Poly):
+                    return None
+                new = cur + (1 if e["op"] == "++" else -1)
+                env[s] = new
+                return cur if e.get("post") else new
+            if k == "Bin":
+                if e["op"] == "<<":
+                    l, r = ev(e["l"]), ev(e["r"])
+                    if isinstance(l, Poly) and l == Poly.const(1) and isinstance(r, Poly):
+                        return ("pow2", r)
+                    return None
+                l, r = ev(e["l"]), ev(e["r"])
+                if isinstance(l, Poly) and isinstance(r, Poly):
+                    if e["op"] == "+":
+                        return l + r
+                    if e["op"] == "-":
+                        return l - r
+                return None
+            return None
+
+        def scan(stmts):
+            for s in stmts:
+                k = s.get("k")
+                if k == "Decl":
+                    for v in s.get("vars", []):
+                        ini = v.get("init")
+                        if ini is None:
+                            continue
+                        i0 = strip_all(ini)
+                        # array locals: vector(n, ...) / allocate(n)
+                        n_arg = None
+                        if i0.get("k") == "Construct" and "vector" in (i0.get("crec") or "") and i0.get("args"):
+                            n_arg = i0["args"][0]
+                        elif i0.get("k") == "Call" and i0.get("cname") == "allocate" and i0.get("args"):
+                            n_arg = i0["args"][0]
+                        if n_arg is not None:
+                            val = ev(n_arg)
+                            if isinstance(val, tuple):
+                                sizes[v["d"]] = val[1]
+                            continue
+                        val = ev(ini)
+                        if val is not None:
+                            env[v["d"]] = val
+                elif k == "Expr":
+                    e = strip(s["e"])
+                    if e.get("k") == "Assign" and e.get("op") == "=":
+                        val = ev(e["r"])
+                        t = sym(e["l"])
+                        if t is not None and val is not None:
+                            env[t] = val
+                        check_calls(e)
+                    else:
+                        ev(e)
+                        check_calls(e)
+                elif k in ("For", "RangeFor", "While"):
+                    check_calls(s)      # calls inside loops see the environment established before the loop
+                elif k == "If":
+                    check_calls(s)
+                elif k == "Block":
+                    scan(s.get("s", []))
+
+        def check_calls(node):
+            def v(n):
+                if n.get("k") == "Call" and n.get("cpat") in helpers and len(n.get("args", [])) >= 2:
+                    a0 = strip_all(n["args"][0])
+                    arr = None
+                    if a0.get("k") == "Call" and a0.get("cname") == "data" and a0.get("obj") is not None:
+                        arr = strip(a0["obj"])
+                    elif a0.get("k") == "Ref":
+                        arr = a0
+                    if arr is None or arr.get("k") != "Ref" or arr.get("d") not in sizes:
+                        return
+                    lg = ev(n["args"][1])
+                    if isinstance(lg, tuple) or lg is None:
+                        return
+                    key = "%s:probe-extent#%d" % (short(fn["patq"]), idx[0])
+                    idx[0] += 1
+                    want = sizes[arr["d"]]
+                    if lg == want:
+                        out.append(ob("probe.extent", key, n["loc"], "discharged", "%s(%s, lg) is called with lg == log2 of the array's length" % (n.get("cname"), arr["n"]), fn["qname"]))
+                    else:
+                        out.append(ob("probe.extent", key, n["loc"], "violated", "`%s` was sized 1 << (%r) but %s() probes it with lg size %r: entries are placed with a mask of the wrong width and cannot be found again with the array's real size" % (arr["n"], want, n.get("cname"), lg), fn["qname"]))
+            walk(node, v)
+        if fn.get("body"):
+            scan(stmts_of(fn["body"]))
+    return out
